@@ -293,6 +293,13 @@ func ruleMERGE1(c *Ctx) {
 	if f := p.Func("json.makeSliceArshaler:unmarshal"); f == nil {
 		c.Undecide("json.makeSliceArshaler:unmarshal", "closure missing")
 	} else {
+		// the element loop may have been moved into a private helper of the closure
+		closureF := f
+		for _, g := range p.CalleeClosure(closureF, 2) {
+			if g != closureF && g.Decl != nil && len(callsMethodNamed(g.Info(), g.Body(), "Grow")) > 0 {
+				f = g
+			}
+		}
 		info := f.Info()
 		// the variable guarding v.SetZero()
 		var guard types.Object
@@ -352,17 +359,43 @@ func ruleMERGE1(c *Ctx) {
 				}
 			}
 		}
-		// trim on every exit after expansion
+		// trim on every exit after expansion (analysed from the closure, walking the helper in place)
+		f = closureF
+		info = f.Info()
 		var counter types.Object
+		counters := map[types.Object]bool{}
+		for _, g := range p.CalleeClosure(f, 2) {
+			InspectNoLit(g.Body(), func(nd ast.Node) bool {
+				if id, ok := nd.(*ast.IncDecStmt); ok && id.Tok == token.INC {
+					counter = IdentObj(g.Info(), id.X)
+					counters[counter] = true
+				}
+				return true
+			})
+		}
+		// a variable that receives the helper's element count
 		InspectNoLit(f.Body(), func(nd ast.Node) bool {
-			if id, ok := nd.(*ast.IncDecStmt); ok && id.Tok == token.INC {
-				counter = IdentObj(info, id.X)
+			as, ok := nd.(*ast.AssignStmt)
+			if !ok || len(as.Rhs) != 1 {
+				return true
+			}
+			call, ok := ast.Unparen(as.Rhs[0]).(*ast.CallExpr)
+			if !ok {
+				return true
+			}
+			if h := p.InlineAny(f)(call); h != nil && h.Obj != nil {
+				hs := h.Obj.Type().(*types.Signature)
+				for i, l := range as.Lhs {
+					if i < hs.Results().Len() && counters[hs.Results().At(i)] {
+						counters[IdentObj(info, l)] = true
+					}
+				}
 			}
 			return true
 		})
 		type st struct{ expanded, trimmed bool }
 		bad := ""
-		fl := &Flow[st]{Fn: f}
+		fl := &Flow[st]{Fn: f, Inline: p.InlineAny(f)}
 		visit := func(nd ast.Node, s st) st {
 			for _, call := range CallsIn(nd) {
 				sel, ok := ast.Unparen(call.Fun).(*ast.SelectorExpr)
@@ -371,7 +404,7 @@ func ruleMERGE1(c *Ctx) {
 				}
 				switch sel.Sel.Name {
 				case "SetLen":
-					if len(call.Args) == 1 && counter != nil && IdentObj(info, call.Args[0]) == counter {
+					if len(call.Args) == 1 && counter != nil && counters[IdentObj(info, call.Args[0])] {
 						s.trimmed = true
 					} else {
 						s.expanded, s.trimmed = true, false
